@@ -21,6 +21,75 @@ use std::collections::BTreeMap;
 
 pub struct C08;
 
+/// after each build (reference, then explored) asks every vehicle's traversal model for its best-case estimate
+/// between the two ends of the first edge: "the best-case energy used to order the search is the ideal rate times
+/// distance" - whatever the ideal rate is, two builds of one configuration must agree on it (round 7)
+struct EstimateProbe {
+    vehicles: Vec<(String, String)>, // name, kind
+    out: serde_json::Map<String, Value>,
+    /// where the stub model's rate has its minimum (miles per hour; an integer that is no multiple of ten)
+    stub_minimum_at: f64,
+}
+impl crate::scenario::Instrument for EstimateProbe {
+    fn after_build(&mut self, app: &mut routee_compass::app::compass::compass_app::CompassApp, reference: bool) {
+        let mut per = serde_json::Map::new();
+        for (name, kind) in &self.vehicles {
+            let mut q = json!({"origin_vertex": 0, "destination_vertex": 1, "model_name": name});
+            if kind != "ice" {
+                q["starting_soc_percent"] = json!(50.0);
+            }
+            let r = std::panic::catch_unwind(std::panic::AssertUnwindSafe(|| -> Result<Value, String> {
+                let si = app.search_app.build_search_instance(&q).map_err(|e| e.to_string())?;
+                let g = &si.directed_graph;
+                if g.n_vertices() < 2 {
+                    return Ok(Value::Null);
+                }
+                let (a, b) = (
+                    g.get_vertex(&routee_compass_core::model::network::VertexId(0)).map_err(|e| e.to_string())?,
+                    g.get_vertex(&routee_compass_core::model::network::VertexId(g.n_vertices() - 1)).map_err(|e| e.to_string())?,
+                );
+                let mut st = si.state_model.initial_state().map_err(|e| e.to_string())?;
+                si.traversal_model.estimate_traversal((a, b), &mut st, &si.state_model).map_err(|e| e.to_string())?;
+                Ok(si.state_model.serialize_state(&st))
+            }));
+            per.insert(name.clone(), match r {
+                Ok(Ok(v)) => v,
+                Ok(Err(e)) => json!({"error": e}),
+                Err(_) => json!({"error": "panic"}),
+            });
+        }
+        // the start-up sweep for the ideal rate itself, on a stub model whose rate has one narrow minimum (a
+        // trait the code already has): asked once in the quiet phase and once while the clock may jump (a host
+        // that stalls while the application starts) - the ideal rate of a model is not a matter of timing
+        struct NarrowMinimum {
+            at_mph: f64,
+        }
+        impl routee_compass_powertrain::routee::prediction::PredictionModel for NarrowMinimum {
+            fn predict(&self, speed: (Speed, SpeedUnit), _grade: (Grade, GradeUnit)) -> Result<(routee_compass_core::model::unit::EnergyRate, EnergyRateUnit), routee_compass_core::model::traversal::traversal_model_error::TraversalModelError> {
+                let mph = speed.1.convert(&speed.0, &SpeedUnit::MilesPerHour).as_f64();
+                Ok((routee_compass_core::model::unit::EnergyRate::new(1.0 + (mph - self.at_mph).abs() * 0.01), EnergyRateUnit::KilowattHoursPerMile))
+            }
+        }
+        let stub: std::sync::Arc<dyn routee_compass_powertrain::routee::prediction::PredictionModel> = std::sync::Arc::new(NarrowMinimum { at_mph: self.stub_minimum_at });
+        if !reference {
+            crate::sim::set_quiet(false);
+        }
+        let swept = std::panic::catch_unwind(std::panic::AssertUnwindSafe(|| routee_compass_powertrain::routee::prediction::prediction_model_ops::find_min_energy_rate(&stub, &EnergyRateUnit::KilowattHoursPerMile)));
+        if !reference {
+            crate::sim::set_quiet(true);
+        }
+        per.insert("(stub model with one narrow minimum)".into(), match swept {
+            Ok(Ok(r)) => json!(r.as_f64()),
+            Ok(Err(e)) => json!({"error": e.to_string()}),
+            Err(_) => json!({"error": "panic"}),
+        });
+        self.out.insert(if reference { "reference".into() } else { "explored".into() }, Value::Object(per));
+    }
+    fn extra(&mut self) -> Value {
+        json!({"estimates": Value::Object(self.out.clone())})
+    }
+}
+
 pub fn gen_case(seed: u64, family: &str, tier: Tier) -> Case {
     if family == "known-stale-label" {
         // the recorded input of a known finding (see known_findings.json), met by every run of the check
@@ -81,8 +150,11 @@ pub fn gen_case(seed: u64, family: &str, tier: Tier) -> Case {
         // the application - its speed and grade tables among the rest - is built inside the explored phase, from
         // a disk that hands out its files in small pieces (short reads: always legal, never a reason to fail).
         // What the vehicles then record per edge is judged as in the other families (round 6)
-        simcfg.faults = crate::sim::F_SHORT_READ;
+        simcfg.faults = crate::sim::F_SHORT_READ | crate::sim::F_CLOCK_JUMP;
         simcfg.io_fault_rate = *r.pick(&[0.1, 0.5, 0.9]);
+        // ... on a machine that stalls now and then while it loads (the monotonic clock jumps ahead)
+        simcfg.clock_fault_rate = *r.pick(&[0.0, 0.01, 0.1]);
+        simcfg.clock_jump_ns = *r.pick(&[300_000_000u64, 2_000_000_000, 60_000_000_000]);
         // (an application that finds the wall clock set back while it loads refuses to start: DESIGN.md, observations)
         simcfg.wall_step_rate = 0.0;
     }
@@ -182,6 +254,18 @@ fn judge(case: &Case, obs: &Obs) -> (Vec<Violation>, BTreeMap<String, u64>, bool
     }
     for p in &obs.panics {
         v.push(Violation { class: super::c12::panic_class(p), detail: format!("panic: {} at {}", p.message, p.location) });
+    }
+    // best-case estimates of the two applications built from one configuration (reference: built in the quiet
+    // phase; explored: in family load built under short reads and clock jumps)
+    if let (Some(a), Some(b)) = (obs.extra.get("estimates").and_then(|e| e.get("reference")).and_then(|x| x.as_object()), obs.extra.get("estimates").and_then(|e| e.get("explored")).and_then(|x| x.as_object())) {
+        for (name, ra) in a {
+            if let Some(rb) = b.get(name) {
+                bump("best_case_estimates_compared", 1);
+                if !json_close(ra, rb, 1e-9) {
+                    v.push(Violation { class: "best-case-estimate-differs-between-builds".into(), detail: format!("vehicle {}: the best-case estimate between the first and the last vertex is {} in one application and {} in another built from the same configuration", name, ra, rb) });
+                }
+            }
+        }
     }
     let w = &case.world;
     let units = units_of(w);
@@ -461,7 +545,11 @@ impl Check for C08 {
         gen_case(seed, family, tier)
     }
     fn run(&self, case: &Case, fatal_fd: i32) -> ChildResult {
-        let obs = execute(case, ExecOpts { reference: true, trace: false, log_clock: false, explore_build: case.family == "load" }, Box::new(NoInstr), fatal_fd);
+        let vehicles: Vec<(String, String)> = match &case.world.traversal {
+            Traversal::Energy { vehicles, .. } => vehicles.iter().map(|v| (v.name.clone(), v.kind.clone())).collect(),
+            _ => vec![],
+        };
+        let obs = execute(case, ExecOpts { reference: true, trace: false, log_clock: false, explore_build: case.family == "load" }, Box::new(EstimateProbe { vehicles, out: Default::default(), stub_minimum_at: { let k = 21 + (case.seed % 58); if k % 10 == 0 { (k + 3) as f64 } else { k as f64 } } }), fatal_fd);
         let (violations, mut reach, nontrivial) = judge(case, &obs);
         reach.insert("preemptions".into(), obs.stats.preemptions);
         if case.family == "load" {
